@@ -6,16 +6,23 @@ Property theorems only (helpers in `Lemmas/Ignore.lean`).  Statements are about
 `Model/Ignore.lean`, a transliteration tied to the Go source by `Tie/Ignore.lean` and by the
 `ignore` correspondence harness.
 
-Two statements of DESIGN.md §6 are *false* of the code as it exists; both are refuted here by a
-concrete witness that the harness replays on the real code on every run:
+History: the "more specific" test used to be unsound (a `?` absorbed a `%`, finding D1); that
+was repaired in dolt by `fix:` 4a3abdc and the model follows the repaired code; the D1 witness
+(`a?` ignored, `a%` not ignored, table `ab`) now is an `example` of the *right* answer and lives in
+`corpus/C46/` as a regression input.
 
-* `moreSpecific_sound_full` (the "more specific" test implies language inclusion): refuted by
-  `a?` / `a%` — the `?` of the less specific pattern absorbs a `%` of the candidate, because
-  `getMoreSpecificPatterns` rewrites the inside of the class it has just produced.  Consequence
-  `wrong_winner`: with `a?` ignored and `a%` not ignored, table `ab` is *not* ignored although the
-  strictly more specific pattern says "ignore".
+Two statements are still *false* of the code as it exists, each refuted here by a concrete
+witness that the harness replays on the real code on every run:
+
+* `equally_specific_conflict_full` (equally specific contradicting patterns are a conflict):
+  holds for equal normal forms only; `?%` vs `*?%` match the same names and one silently wins
+  (finding D4).
 * `modified_tracked_always_staged_full` (add -A stages every change to a tracked table): refuted
-  — `StageTables` filters *every* name through dolt_ignore, not only new tables.
+  — `StageTables` filters *every* name through dolt_ignore, not only new tables (finding D2).
+
+`moreSpecific_sound` needs one hypothesis that is genuinely necessary: the candidate pattern has no
+literal newline (a `?` of the less specific pattern absorbs it, but `?` never matches a newline in a
+table name); the unrestricted statement is refuted by `a?` / `a\n`.
 -/
 namespace DoltVerif.C46
 open DoltVerif.Ignore
@@ -35,16 +42,17 @@ example : matchesName "a?*".toList "abc".toList = true ∧ matchesName "a?*".toL
 def moreSpecific_sound_full : Prop :=
   ∀ p q : Str, moreSpecific p q = true → ∀ s, matchesName q s = true → matchesName p s = true
 
-/-- The full statement is false: `a%` is accepted as more specific than `a?`, but `abc` matches
-`a%` and not `a?`. -/
+/-- The unrestricted statement is false, for one reason only: a literal newline in the candidate.
+`a\n` is accepted as more specific than `a?` (the class `[^\*%]` contains newline), the name `a\n`
+matches the pattern `a\n`, but `?` (= `.`) does not match a newline. -/
 theorem moreSpecific_sound_full_false : ¬ moreSpecific_sound_full := by
   intro h
-  have := h "a?".toList "a%".toList (by decide) "abc".toList (by decide)
+  have := h "a?".toList ['a', '\n'] (by decide) ['a', '\n'] (by decide)
   revert this; decide
 
-/-- What holds: when the candidate contains neither `%` nor a newline, everything the code accepts
-as more specific than `p` matches only names that `p` matches. -/
-theorem moreSpecific_sound_partial {p q : Str} (hq : ∀ c ∈ q, c ≠ '%' ∧ c ≠ '\n')
+/-- **What the code accepts as "more specific" matches fewer names**: when the candidate contains
+no literal newline, every name matching the candidate matches the less specific pattern. -/
+theorem moreSpecific_sound_partial {p q : Str} (hq : ∀ c ∈ q, c ≠ '\n')
     (h : moreSpecific p q = true) : ∀ s, matchesName q s = true → matchesName p s = true := by
   intro s hs
   have hd : Den qOk p q := den_of_match h
@@ -55,26 +63,24 @@ theorem moreSpecific_sound_partial {p q : Str} (hq : ∀ c ∈ q, c ≠ '%' ∧ 
   | nil => rw [den_nil_inv hs']; exact .nil
   | @star p ps w q' hp hw _ ih =>
     obtain ⟨s1, s2, rfl, h1, h2⟩ := den_append_split hs'
-    have hq' : ∀ c ∈ q', c ≠ '%' ∧ c ≠ '\n' := fun c hc => hq c (by simp [hc])
+    have hq' : ∀ c ∈ q', c ≠ '\n' := fun c hc => hq c (by simp [hc])
     exact .star hp (den_dotOk h1 hw) (ih hq' _ h2)
   | @one p c ps q' hp hc _ ih =>
-    have hq' : ∀ c ∈ q', c ≠ '%' ∧ c ≠ '\n' := fun c hc => hq c (by simp [hc])
+    have hq' : ∀ c ∈ q', c ≠ '\n' := fun c hc => hq c (by simp [hc])
     have hcq := hq c (by simp)
     rcases den_cons_inv hs' with ⟨hstar, _⟩ | ⟨hns, d, s', rfl, hd, h'⟩
-    · -- the candidate character is `*` (it is not `%`): `?` excludes it, a literal is not a star
+    · -- the candidate character is `*` or `%`: the `?` class excludes both, a literal is not a star
       exfalso
-      have hc' : c = '*' := by
-        have : (c == '*' || c == '%') = true := hstar
-        simp only [Bool.or_eq_true, beq_iff_eq] at this
-        rcases this with h | h
-        · exact h
-        · exact absurd h hcq.1
-      subst hc'
       unfold charOk at hc
       by_cases hq1 : (p == '?') = true
-      · simp [hq1, qOk] at hc
-      · have : '*' = p := by simpa [hq1] using hc
-        subst this; simp [isStar] at hp
+      · have hstar' : (c == '*' || c == '%') = true := hstar
+        simp only [hq1, if_true, qOk, Bool.and_eq_true, bne_iff_ne, ne_eq] at hc
+        simp only [Bool.or_eq_true, beq_iff_eq] at hstar'
+        rcases hstar' with h | h
+        · exact hc.1 h
+        · exact hc.2 h
+      · have : c = p := by simpa [hq1] using hc
+        subst this; rw [hstar] at hp; cases hp
     · refine .one hp ?_ (ih hq' _ h')
       unfold charOk at hc hd ⊢
       by_cases hq1 : (p == '?') = true
@@ -83,13 +89,17 @@ theorem moreSpecific_sound_partial {p q : Str} (hq : ∀ c ∈ q, c ≠ '%' ∧ 
         · simpa [hq2] using hd
         · have : d = c := by simpa [hq2] using hd
           subst this
-          simp [dotOk, hcq.2]
+          simp [dotOk, hcq]
       · simp only [hq1, Bool.false_eq_true, if_false] at hc ⊢
         have hcp : c = p := by simpa using hc
         subst hcp
         simpa [hq1] using hd
 
-example : moreSpecific "a*".toList "a?b".toList = true ∧ (∀ c ∈ "a?b".toList, c ≠ '%' ∧ c ≠ '\n') := by
+/-- the former D1 witness: `a%` is no longer accepted as more specific than `a?` -/
+example : moreSpecific "a?".toList "a%".toList = false ∧ moreSpecific "a%".toList "a?".toList = true := by
+  decide
+
+example : moreSpecific "a*".toList "a?b".toList = true ∧ (∀ c ∈ "a?b".toList, c ≠ '\n') := by
   decide
 
 /-! ## 3. normal forms -/
@@ -203,38 +213,31 @@ example : resolve ["a*".toList, "a*".toList] ["ab".toList] = .conflict ∧
 
 /-! ## 5. the winner really is at least as specific (and where that fails) -/
 
-/-- the semantic claim behind "the most specific matching pattern wins" -/
+/-- the semantic claim behind "the most specific matching pattern wins", without any hypothesis
+on the patterns.  Not proved: the only gap is a literal newline inside a pattern (then
+`moreSpecific_sound_partial` does not apply); since two patterns that match the *same* name must
+carry the same number of literal newlines, a `?` can in fact never absorb one here, but that
+counting argument is not formalised. -/
 def winner_dominates_full : Prop :=
   ∀ (ps : List Pat) (name : Str), (ps.map (·.pat)).Nodup →
     (decideName ps name = .dontIgnore → ∀ t ∈ trueMatches ps name,
       ∃ f ∈ falseMatches ps name, ∀ s, matchesName f s = true → matchesName t s = true)
 
-/-- Refuted: `a?` ignored, `a%` not ignored, table `ab`: decided "not ignored" although no
-not-ignored pattern is as specific as `a?` (`abc` matches `a%` only).  Replayed on the real code by
-the harness (`witnesses`). -/
-theorem winner_dominates_full_false : ¬ winner_dominates_full := by
-  intro h
-  have := h [⟨"a?".toList, true⟩, ⟨"a%".toList, false⟩] "ab".toList (by decide) (by decide)
-    "a?".toList (by decide)
-  obtain ⟨f, hf, hs⟩ := this
-  have hf' : f = "a%".toList := by
-    have : falseMatches [⟨"a?".toList, true⟩, ⟨"a%".toList, false⟩] "ab".toList = ["a%".toList] := by
-      decide
-    rw [this] at hf; simpa using hf
-  subst hf'
-  have := hs "abc".toList (by decide)
-  revert this; decide
+/-- the former D1 witness now gets the right verdict: `a?` (ignored) is strictly more specific
+than `a%` (not ignored), table `ab` is ignored; with the flags swapped it is not ignored -/
+example : decideName [⟨"a?".toList, true⟩, ⟨"a%".toList, false⟩] "ab".toList = .ignore ∧
+    decideName [⟨"a?".toList, false⟩, ⟨"a%".toList, true⟩] "ab".toList = .dontIgnore := by decide
 
-/-- What holds: when no pattern contains `%` or a newline, a "not ignored" verdict means every
+/-- **The winner really is at least as specific**: when no pattern contains a literal newline, a "not ignored" verdict means every
 matching ignored pattern is overridden by a matching not-ignored pattern that matches only names
 the ignored one matches, and symmetrically for an "ignored" verdict. -/
 theorem winner_dominates_partial (ps : List Pat) (name : Str) (hnd : (ps.map (·.pat)).Nodup)
-    (hclean : ∀ p ∈ ps, ∀ c ∈ p.pat, c ≠ '%' ∧ c ≠ '\n') :
+    (hclean : ∀ p ∈ ps, ∀ c ∈ p.pat, c ≠ '\n') :
     (decideName ps name = .dontIgnore → ∀ t ∈ trueMatches ps name,
       ∃ f ∈ falseMatches ps name, ∀ s, matchesName f s = true → matchesName t s = true) ∧
     (decideName ps name = .ignore → isRebaseTable name = false → ∀ f ∈ falseMatches ps name,
       ∃ t ∈ trueMatches ps name, ∀ s, matchesName t s = true → matchesName f s = true) := by
-  have hcl : ∀ x, (x ∈ trueMatches ps name ∨ x ∈ falseMatches ps name) → ∀ c ∈ x, c ≠ '%' ∧ c ≠ '\n' := by
+  have hcl : ∀ x, (x ∈ trueMatches ps name ∨ x ∈ falseMatches ps name) → ∀ c ∈ x, c ≠ '\n' := by
     intro x hx
     unfold trueMatches falseMatches at hx
     simp only [List.mem_map, List.mem_filter] at hx
@@ -279,6 +282,52 @@ theorem winner_dominates_partial (ps : List Pat) (name : Str) (hnd : (ps.map (·
       · rw [d3 hall hall2] at hd; cases hd
 
 example : decideName [⟨"a*".toList, true⟩, ⟨"a?".toList, false⟩] "ab".toList = .dontIgnore := by decide
+
+/-! ## 5b. equally specific patterns whose normal forms differ (finding D4) -/
+
+/-- the property's conflict rule, semantically: a matching ignored and a matching not-ignored
+pattern that match exactly the same names are reported as a conflict -/
+def equally_specific_conflict_full : Prop :=
+  ∀ (ps : List Pat) (name : Str), (ps.map (·.pat)).Nodup →
+    (∃ t ∈ trueMatches ps name, ∃ f ∈ falseMatches ps name, ∀ s, matchesName t s = matchesName f s) →
+    decideName ps name = .conflict
+
+theorem starLoop_isEmpty (s : Str) : starLoop (matchWith dotOk []) s = s.all dotOk := by
+  induction s with
+  | nil => rfl
+  | cons c cs ih =>
+    have e : matchWith dotOk [] (c :: cs) = false := rfl
+    rw [starLoop, ih, e]; simp
+
+theorem match_q_pct (s : Str) : matchesName "?%".toList s = (!s.isEmpty && s.all dotOk) := by
+  cases s with
+  | nil => rfl
+  | cons c cs =>
+    show (charOk dotOk '?' c && starLoop (matchWith dotOk []) cs) = _
+    rw [starLoop_isEmpty]; simp [charOk]
+
+theorem match_star_q_pct (s : Str) : matchesName "*?%".toList s = (!s.isEmpty && s.all dotOk) := by
+  show starLoop (matchWith dotOk "?%".toList) s = _
+  induction s with
+  | nil => rfl
+  | cons c cs ih =>
+    have h := match_q_pct (c :: cs)
+    unfold matchesName at h
+    rw [starLoop, h, ih]
+    cases cs with
+    | nil => simp
+    | cons d ds => simp
+
+/-- Refuted (holds only for equal *normal forms*, `ignore_decision_spec`): `?%` (ignored) and `*?%`
+(not ignored) match exactly the same names -- one or more non-newline characters -- but their
+normal forms `?%` / `%?%` differ, `*?%` is accepted as less specific than `?%` and not vice versa,
+and the verdict is "ignored" instead of a conflict.  Replayed on the real code by the harness
+(key `C46/normalizePattern/equivalent-patterns-different-normal-form`). -/
+theorem equally_specific_conflict_full_false : ¬ equally_specific_conflict_full := by
+  intro h
+  have := h [⟨"?%".toList, true⟩, ⟨"*?%".toList, false⟩] "ab".toList (by decide)
+    ⟨"?%".toList, by decide, "*?%".toList, by decide, fun s => by rw [match_q_pct, match_star_q_pct]⟩
+  revert this; decide
 
 /-! ## 6. staging: add -A / add <tables> / commit -A -/
 
